@@ -16,6 +16,7 @@ RULE = (
     "around barriers, overlapping triples); (c) qft then iqft on every qubit list of length <=5; unitaries compared exactly; non-trivial = both operands "
     "have >=1 gate (a), >=1 pair cancels (b), list length >=2 (c); distinct by case text"
 )
+PREIMPORT = ["numpy"]
 DECIDING = ["enhanced_operands", "append_circuit_checked", "add_checked", "iadd_checked", "repeat_checked", "copy_checked", "remove_identities_checked", "pairs_cancelled", "qft_checked"]
 ASSUMPTIONS = ["own numpy unitary simulator; qubit i = bit i", "repeat(0) is outside the claim (undefined by the docstring)",
                "remove_identities is exercised with re-appended identical gate objects, the only pairs it can recognise"]
